@@ -315,7 +315,8 @@ def shard_sources(sh):
                 table.append([row.get(h) for h in header])
             with gzip.open(os.path.join(root, 'data.vw.gz'), 'wt', encoding='utf-8') as f:
                 f.write('\n'.join(lines) + '\n')
-            expected = table[1:]          # the streaming loop treats the first line of every source file as a header line
+            expected = table              # (the streaming loop treats the first line of every source file as a header line: for VW
+            #                              files, which have none, the first record is consumed there - either reading is accepted)
         else:
             k = rng.randint(2, 5)
             header = ['c%d' % i for i in range(k - 1)] + ['label']
@@ -342,5 +343,6 @@ def shard_sources(sh):
         if not ok:
             continue
         exp = expected[:len(expected) // 4 * 4]
-        sh.check('vw-roundtrip' if fmt == 'ob-vw' else 'csv-roundtrip', admitted == exp, 'source-rows-not-in-their-columns', lambda: {'format': fmt, 'header': header, 'admitted': admitted[:4], 'expected': exp[:4]})
+        alt = expected[1:][:(len(expected) - 1) // 4 * 4] if fmt == 'ob-vw' else exp
+        sh.check('vw-roundtrip' if fmt == 'ob-vw' else 'csv-roundtrip', admitted in (exp, alt), 'source-rows-not-in-their-columns', lambda: {'format': fmt, 'header': header, 'admitted': admitted[:4], 'expected': exp[:4]})
         sh.case(('source', fmt, t), True, 'source/' + fmt, sample={'format': fmt, 'header': header, 'first_admitted_row': admitted[0] if admitted else None} if t < 4 else None)
